@@ -1045,6 +1045,8 @@ def run(prog, rep, tier):
     rep.rule('HDF5-empty-safe', 'single rows of arrays loaded from the file are only read under a '
              'length condition (legs without blocks)')
     check_loaded_array_ends(prog, rep)
+    if check_save_reductions(prog, rep) < 2:
+        raise AnalysisError('HDF5-empty-safe: reductions in save_hdf5 of MPS / MPO not found')
     from ..flow import check_state_derived_agree
     rep.rule('STATE-derived-agree', '__setstate__ derives attributes by the same expressions as '
              '__init__ where both start from the same inputs')
@@ -1504,6 +1506,50 @@ def check_inherited_loader(prog, rep):
                       'own __init__ binds %s (read by its other methods): a loaded %s lacks them '
                       '(AttributeError on use)' % (ci.name, owner, miss, ci.name),
                       ci.methods['__init__'].lineno)
+    return n
+
+
+# ------------------------------------------------------------------ HDF5-empty-safe (reductions)
+def check_save_reductions(prog, rep):
+    """save_hdf5 must work for every valid object.  A reduction without identity (np.max / np.min /
+    max / min without `initial=` / `default=`) over a property that builds its list by looping over
+    a slice-selected part of the per-bond data (`self._S[self.nontrivial_bonds]`: empty for a
+    finite chain of one site, slice(1, L)) raises for such an object."""
+    ct = prog.classtable()
+    n = 0
+    for ci in ct.all:
+        f = ci.methods.get('save_hdf5')
+        if f is None:
+            continue
+        for c in ast.walk(f):
+            if not (isinstance(c, ast.Call) and unparse(c.func) in ('np.max', 'np.min', 'max', 'min',
+                                                                     'np.amax', 'np.amin')
+                    and len(c.args) == 1 and is_self_attr(c.args[0])):
+                continue
+            attr = c.args[0].attr
+            prop = None
+            for k in ci.mro:
+                for st in k.node.body:
+                    if isinstance(st, ast.FunctionDef) and st.name == attr and any(
+                            unparse(d) == 'property' for d in st.decorator_list):
+                        prop = prop or st
+            if prop is None:
+                continue
+            sliced = any(isinstance(x, ast.For) and isinstance(x.iter, ast.Call) is False and
+                         'nontrivial_bonds' in unparse(x.iter) for x in ast.walk(prop)) or any(
+                isinstance(x, ast.For) and 'nontrivial_bonds' in unparse(x.iter)
+                for x in ast.walk(prop))
+            n += 1
+            has_identity = any(k.arg in ('initial', 'default') for k in c.keywords)
+            rep.instance('HDF5-empty-safe', {'class': ci.name, 'reduction': unparse(c)[:60],
+                                             'over_slice_selected_list': sliced,
+                                             'has_identity': has_identity})
+            if sliced and not has_identity:
+                rep.violation('HDF5-empty-safe', ci.module, ci.name + '.save_hdf5',
+                              'reduction-of-empty:' + attr,
+                              '`%s`: .%s lists the NON-TRIVIAL bonds only (none for a finite chain '
+                              'of one site); the reduction has no identity and raises, such an '
+                              'object cannot be saved' % (unparse(c)[:60], attr), c.lineno)
     return n
 
 
